@@ -67,7 +67,16 @@ def vkey(v):
     return ("id", id(v))
 
 
+def _tests(v, cond, depth=0):
+    if isinstance(v, PV) and depth < 12:
+        return v.cond is cond or _tests(v.hi, cond, depth + 1) or _tests(v.lo, cond, depth + 1)
+    return False
+
+
 def mk_pv(cond, hi, lo):
+    # below a test of `cond` the same test is already decided: leaves that would contradict it are unreachable and must not survive
+    if isinstance(hi, PV) and _tests(hi, cond): hi = pv_restrict(hi, cond, True)
+    if isinstance(lo, PV) and _tests(lo, cond): lo = pv_restrict(lo, cond, False)
     if vkey(hi) == vkey(lo): return hi
     return PV(cond, hi, lo)
 
